@@ -51,8 +51,8 @@ open CV CV.Val
 def subLoads (W : World) (wd L : String) (env : Env) (chain : List String) : List IncCfg → Out (List KVs)
   | [] => .ok []
   | r :: rs =>
-    (plan W wd L chain r).bind fun pl =>
-    (includeEnv W wd pl.projDir env r.envFile).bind fun env' =>
+    (plan W (baseDir wd L) L chain r).bind fun pl =>
+    (includeEnv W (baseDir wd L) pl.projDir env r.envFile).bind fun env' =>
     (W.loadModel pl.relwd pl.projDir pl.paths env' chain).bind fun im =>
     (subLoads W wd L env chain rs).bind fun ims => .ok (im :: ims)
 
